@@ -138,7 +138,7 @@ PROPS = {
   "technique": "Coq theorems on settled model + transition-system invariant/refutations + differential replay of scenarios",
  },
  "C11": {
-  "tests": ["TestC11"],
+  "tests": ["TestC11", "TestC11Races"],
   "rule": "as C10 with 2..13 waiters, arrivals at distinct instants, chosen waiters timing out or cancelled before releases; the grant order is compared with the model and with the oracle "
           "(oldest / newest still waiting); every constructor is exercised and its installed ordering read back; non-trivial = a release serving one of >= 2 waiters",
   "level_text": "C11_order + C11_release proved on the settled model (served waiter = oldest/newest still blocked); C11_constructors is a generated-fact obligation over the 14 constructor variants.",
@@ -164,7 +164,7 @@ PROPS = {
   "technique": "Coq theorems on settled model + differential replay on a virtual clock",
  },
  "C19": {
-  "tests": ["TestC19", "TestC19Races"],
+  "tests": ["TestC19", "TestC19Races", "TestC19Sustained"],
   "rule": "fixed and generic pools, all orderings, limit + 1..4 callers arriving at different instants, holders releasing one at a time after random hold times; holders never exceed the limit and every caller "
           "must end up served; non-trivial = a completed pool run, distinct by (constructor, ordering, limit, callers)",
   "level_text": "C19_wiring (generated constructor facts), C19_never_over_* (every operation of every wrapper keeps busy <= limit), C19_served_partial (each release with waiters and room serves one at once; queue pools) proved; "
